@@ -26,6 +26,12 @@ S1_CASED = Svc("_A._tcp.local.", "S1._A._tcp.local.", "H1.Local.", 80, b"\x03a=b
 SHAPES = {"one": [S1], "shared-host": [S1, S2_SHARED], "other-host": [S1, S2_OTHER], "cased": [S1_CASED],
           "cased+other": [S1_CASED, S2_OTHER]}
 
+# registries reached through an update that moves the *other* service to another host name (a new description object):
+# 'away' leaves the withdrawn service alone on its host (addresses must be withdrawn), 'in' makes the host shared (they must not)
+S2_MOVED_AWAY = Svc(TA, "s2._a._tcp.local.", "h2.local.", 81, b"", [bytes([10, 0, 0, 2])], [])
+S2_MOVED_IN = Svc("_b._tcp.local.", "s2._b._tcp.local.", "h1.local.", 81, b"", [bytes([10, 0, 0, 1])], [])
+MOVES = {"away": ("shared-host", S2_MOVED_AWAY), "in": ("other-host", S2_MOVED_IN)}
+
 KINDS = ["qm-ptr", "qm-ptr+srv", "qm-srv", "qu-ptr", "legacy-ptr", "tc-ptr", "protected-ptr", "qm-a", "qm-any", "qm-burst"]
 OFFSETS = [1, 19, 21, 119, 121, 250, 399, 401, 499, 501, 999, 1001, 1199]
 U_MS = 5000.0  # withdrawal instant relative to world start (registration finished at ~800 ms)
@@ -68,6 +74,10 @@ def grid(tier: str) -> List[Dict[str, Any]]:
     pts += [dict(q, mode="sync_unregister") for q in base[::2]] + [dict(q, mode="sync_unregister_close") for q in base[1::2]]
     # the service is withdrawn through an equal but different description object (re-created by the application)
     pts += [dict(q, obj="recreated") for q in pts if q["mode"] == "unregister"][::3]
+    # the other service was moved to / from the withdrawn service's host name by an update before the query arrives
+    for mv, (shape, _s) in MOVES.items():
+        pts += [dict(q, moved=mv) for q in pts if q["mode"] == "unregister" and q["shape"] == shape and q["second"] is None
+                and "obj" not in q][::2]
     # the same on an IPv6-only host (queries from a link-local source): every 5th point
     pts += [dict(q, v6=True) for q in pts[::5]]
     return pts
@@ -87,6 +97,11 @@ def run_point(p: Dict[str, Any], verbose: bool = False) -> Tuple[Optional[Dict[s
         for info in infos:
             register(w, host, info)
         t0 = 1_000_000.0
+        if p.get("moved"):
+            moved = MOVES[p["moved"]][1]
+            w.advance_to_ms(t0 + 1500)
+            w.run_coro(_update(host, make_info(moved)))
+            svcs = [svcs[0], moved]
         tq = t0 + U_MS - p["d"]
         data, port = query_bytes(p["kind"])
         if p["kind"] == "protected-ptr":
@@ -104,6 +119,8 @@ def run_point(p: Dict[str, Any], verbose: bool = False) -> Tuple[Optional[Dict[s
             task = w.spawn(_unreg(host, make_info(svcs[0]) if p.get("obj") == "recreated" else infos[0]))
             withdrawn_svcs = [svcs[0]]
             with_addr = p["shape"] != "shared-host"
+            if p.get("moved"):
+                with_addr = p["moved"] == "away"
         elif mode in ("sync_unregister", "sync_unregister_close"):
             with w.outside():
                 host.zc.unregister_service(infos[0])
@@ -186,6 +203,11 @@ def run_point(p: Dict[str, Any], verbose: bool = False) -> Tuple[Optional[Dict[s
         verdict = {"what": f"C08 {p}: {problems[0]}", "replay": {"problems": problems[:5]},
                    "signature": {"check": problems[0].split(":")[0]}}
     return verdict, obs, w.loop.handles_run
+
+
+async def _update(host: Any, info: Any) -> None:
+    task = await host.zc.async_update_service(info)
+    await task
 
 
 async def _unreg(host: Any, info: Any) -> None:
